@@ -2,7 +2,7 @@
 \* cache-only kind, close and finish, lane "aux" with deltas, cache loss anywhere.  Schedules in which
 \* cache-only events are accepted after a loss are excluded so that the strong fail-closed formula
 \* C40_FinishFailClosed can be checked (MC_finding.cfg shows the counterexample otherwise).
-\* Measured: 49,146 distinct states, 817,507 transitions.
+\* Measured: 49,146 distinct states, 1,014,091 transitions.
 SPECIFICATION SpecLeader
 CONSTANTS
   Msgs = {"m1"}
